@@ -230,9 +230,9 @@ def run_bad(case):
 def subs(tier):
     q = tier == "quick"
     return [
-        Sub("amplitudes", run_sim, strategy=sim_case(big=not q), examples=120 if q else 2000),
-        Sub("bunched", run_sim, strategy=bunched_case(big=not q), examples=60 if q else 1000),
-        Sub("fully-heralded", run_sim, strategy=fully_heralded_case(), examples=30 if q else 400),
-        Sub("live-circuit", run_live, strategy=live_case(), examples=60 if q else 800),
-        Sub("rejects", run_bad, strategy=bad_case(), examples=60 if q else 600),
+        Sub("amplitudes", run_sim, strategy=sim_case(big=not q), examples=120 if q else 8000),
+        Sub("bunched", run_sim, strategy=bunched_case(big=not q), examples=60 if q else 4000),
+        Sub("fully-heralded", run_sim, strategy=fully_heralded_case(), examples=30 if q else 1500),
+        Sub("live-circuit", run_live, strategy=live_case(), examples=60 if q else 3000),
+        Sub("rejects", run_bad, strategy=bad_case(), examples=60 if q else 2000),
     ]
